@@ -193,4 +193,12 @@ def run_case(c):
                 ret = s.control_change(3, control, value)
                 return {"ret": boolean(ret), "events": s.log, "observer": o.log}
             R.append(call("cc", {"channel": 3, "control": control, "value": value}, f))
+            # the named control changes (modulation = 1, main volume = 7, pan = 10) are control changes under another name
+            for alias, nr in (("modulation", 1), ("main_volume", 7), ("pan", 10)):
+                if control == nr or (control == 64 and nr != 1):
+                    def g():
+                        s, o = session(120)
+                        ret = getattr(s, alias)(3, value)
+                        return {"ret": boolean(ret), "events": s.log, "observer": o.log}
+                    R.append(call("cc", {"channel": 3, "control": nr, "value": value, "via": alias}, g))
     return R
